@@ -60,7 +60,12 @@ func buildSite(r *rand.Rand, org *origin.Server, k int, shared []string) (seedUR
 	nassets := r.Intn(6)
 	for i := 0; i < nassets; i++ {
 		a := fmt.Sprintf("%s/a%d.png", p, i)
-		switch r.Intn(14) {
+		switch r.Intn(15) {
+		case 13: // the body is cut short: fewer bytes than announced
+			img := okImage(k*100 + i)
+			img.CutAfter = 40
+			org.Route(h, a, img)
+			assets = append(assets, a)
 		case 0: // 404
 			org.Route(h, a, origin.Resp{Status: 404, Body: "gone"})
 			assets = append(assets, a)
@@ -119,6 +124,19 @@ func buildSite(r *rand.Rand, org *origin.Server, k int, shared []string) (seedUR
 		}
 	}
 	org.Route(h, page, htmlPage(fmt.Sprintf("seed %d", k), assets, nil))
+	if k >= 7 && k < 7+len(org.Hosts) {
+		// the seed redirects to the root of its host (one such seed per host: the root is the same URL for all of them),
+		// written as "/" or as the bare origin
+		org.Route(h, "/", htmlPage("root", []string{"/root-logo.png"}, nil))
+		org.Route(h, "/root-logo.png", okImage(k))
+		loc := "/"
+		if k%2 == 0 {
+			loc = "http://" + org.Hosts[h]
+		}
+		org.Route(h, p+"/toroot", origin.Resp{Status: 302, Location: loc})
+		c01expect[abs(p+"/toroot")] = []string{abs(p + "/toroot"), abs("/"), abs("/root-logo.png")}
+		return abs(p + "/toroot"), "redirect-root"
+	}
 	if k%9 == 4 {
 		// a duplicate that must lose against a node that already led somewhere: the page references a manifest and an
 		// icon; the icon answers with a redirect; the manifest (whose URLs are extracted) lists the icon again
